@@ -28,6 +28,7 @@ MODULES = {
     'C05': 'harness.c05',
     'C06': 'harness.c06',
     'C07': 'harness.c07',
+    'C08': 'harness.c08',
 }
 
 
@@ -137,7 +138,7 @@ def main(argv=None):
 
 def finish(pid, a, mod, jobs, results, seed, t0, extra=None):
     known = load_known()
-    n_obl = n_dis = n_non = n_triv = 0
+    n_obl = n_dis = n_non = n_triv = n_ident = 0
     viol = []
     known_hits = {}
     incon = []
@@ -153,6 +154,7 @@ def finish(pid, a, mod, jobs, results, seed, t0, extra=None):
         n_dis += r.discharged
         n_non += r.nontrivial
         n_triv += r.trivial
+        n_ident += getattr(r, 'identical', 0)
         paths += r.paths
         feas += r.feasibility
         twins += r.twins
@@ -238,6 +240,7 @@ def finish(pid, a, mod, jobs, results, seed, t0, extra=None):
                  'verdict came from the SMT solver (counted); trivial = '
                  'decided concretely (shapes, -inf, identical terms)',
             trivial=n_triv,
+            symbolic_sides_identical_terms=n_ident,
             configurations=len(jobs), paths=paths,
             feasibility_queries=feas, solver=solver,
             vacuity_twins=dict(run=twins, refuted_as_required=twins_ok),
